@@ -49,7 +49,9 @@ CHECKS = {
              "watcher's notifications after every step (NunKV group CONN). The histories run three ways: "
              "through process_request with the transports' common end-of-connection code, and (a sample in "
              "the quick tier) over the real TCP server and the real WebSocket server on loopback sockets, "
-             "where a disconnect is the server's own end-of-stream / on_close handling.",
+             "where a disconnect is the server's own end-of-stream / on_close handling. MC_Conn's Close has four "
+             "forms (orderly close, close after bytes that are not a command line, reset by the peer with answers "
+             "unread, drop without a close): one transition of the model, four paths through the transports.",
         note="over sockets the harness waits until the node's projection is stable for 40 ms after each step; "
              "HTTP requests are C20",
         technique="TLA+ reference spec + TLC trace validation; TLC-generated session histories",
@@ -62,7 +64,11 @@ CHECKS = {
              "write/read of another client; TLC validates the trace against Trace_Robust (every line "
              "answered value/ok/error, no panic, no poisoned lock, probe still served, rejected lines "
              "change nothing). Seeded longer sequences and random byte strings on top; a sample of the cases "
-             "also goes through the real TCP server (a panic ends the connection thread: no reply). The node's "
+             "also goes through the real TCP server (a panic ends the connection thread: no reply) and the real "
+             "WebSocket server (one text frame per line); a table of raw byte cases (invalid UTF-8, NULs, unterminated "
+             "and split lines, 70 kB lines over TCP; binary, empty, fragmented, continuation-only, reserved-opcode, "
+             "oversized control and bad close frames over WebSocket) is sent from fresh and authenticated connections, "
+             "each followed by the probe and a new connection of the same transport (Trace_Robust!Raw). The node's "
              "real replication loop (the service thread of main.rs) runs next to the handlers, is fed every "
              "message they queue and must still be alive after every line.",
         note="exploration, not a proof over all byte strings; most lines enter at process_request (a panic "
@@ -136,7 +142,10 @@ CHECKS = {
              "also compared with the byte-level model NunDiskBytes (Trace_Snap: files after = the modelled "
              "file-system calls executed on the files before; in-memory addresses and states = the model's; "
              "the modelled loader on those files = the live entries), whose design-level exploration with "
-             "RestoreExact / AddrsValid is NunDiskCrash (see C11).",
+             "RestoreExact / AddrsValid is NunDiskCrash (see C11). NunDisk's history records carry the model's memory "
+             "after every step; where the node's entries (persistence state, version) differ from it, a second wave of "
+             "histories (every sequence of up to three operations on that key, closed by snapshots and a restart) is "
+             "explored from that step and judged by the same reference (DESIGN A.16).",
         note="declutter tick driven explicitly; restart = start_db sequence on the same directory (probed in "
              "a child process first because a damaged file can abort the loader)",
         technique="TLA+ reference (persisted = last completed snapshot) + TLC trace validation; TLC-generated histories",
@@ -194,11 +203,14 @@ CHECKS = {
              "handshake; every operation kind at every node, seeded sequences of 2-8 operations at arbitrary "
              "nodes and two concurrent clients on the primary, under FIFO and seeded random FIFO-respecting "
              "delivery orders; TLC validates every trace against the ClusterMonitor reference Trace_Cluster "
-             "(at quiescence every node has the primary's databases, values, live status and versions; "
-             "nothing pending).",
+             "(at quiescence every node has the primary's databases, values, live status and versions -- a removed key "
+             "that two nodes still hold as a tombstone carries the same version on both; nothing pending). A case "
+             "family writes the keys to every node's disk first (snapshot + declutter tick on every node), so that "
+             "removes leave tombstones and later removes / writes / increments are judged against them.",
         note="links simulated (one FIFO per direction per dialled connection), per-line transport glue "
              "re-implemented in the harness; roles set directly (elections are C07); NunCluster (data path: "
-             "set / versioned set / increment / remove at any node, replication loop, copies, acks, echo) is "
+             "set / versioned set / increment / remove at any node, node-local snapshot queue and disk set, drop-or-"
+             "tombstone rule of remove, replication loop, copies, acks, echo) is "
              "explored exhaustively by TLC for one and two commands on 2-3 nodes (invariants Converged modulo "
              "the recorded deviations, NothingPending, Budget; liveness EventuallyQuiet) and its schedules are "
              "replayed step by step on the real nodes (drift measured, 0 on the pinned tree)",
@@ -243,7 +255,11 @@ CHECKS = {
              "of the primary's catch-up builder is recorded with its inputs (raw operation log read from the "
              "files, identifier maps, databases) and output lines, and TLC compares it with NunCatchUp.tla (the "
              "builder transcribed: full and incremental synchronisation); TLC then validates the trace against "
-             "Trace_Cluster group CONV at the quiescence after the rejoin.",
+             "Trace_Cluster group CONV at the quiescence after the rejoin. NunSync.tla models the race of the catch-up "
+             "with live replication at the granularity of the cluster-state lock (TLC: no lost write with the pinned "
+             "lock scope, a lost write when the builder runs outside the lock); in the `race` case family the steps of "
+             "the primary's replication loop and supervisor park before every acquisition of that lock (hook sites "
+             "cluster_state.*) and the inputs of a catch-up call are those at the step's last resume.",
         note="the recorded catch-up defects are covered by one deviation for the rejoined node's data, enabled "
              "only in runs whose catch-up lines conform to NunCatchUp: for such a node the check decides "
              "termination, absence of other panics and convergence of every other node, not byte-exact "
@@ -332,7 +348,7 @@ def main():
             "enable": "harness/.cargo/config.toml sets rustflags --cfg nun_verif; the harness crate has a "
                       "path dependency on /repo, so every check rebuilds /repo's working tree with hooks on",
             "baseline_off_cmd": "cd /repo && cargo test --workspace --no-fail-fast --offline",
-            "source_commits": ["a1f9077", "df1d841", "6ce3f5a", "6738923"],
+            "source_commits": ["a1f9077", "df1d841", "6ce3f5a", "6738923", "240d207"],
             "add_only": True,
         },
         "engines": [{
